@@ -178,8 +178,17 @@ def native_grid(key, ns):
     if key == '_address':
         return [(r, c, t, a1, sh) for r in (1, 7, 100) for c in (1, 26, 27, 52, 702, 703, 800) for t in ('0', '1', '2', '3', '4', '5', 1, 4) for a1 in ('True', 'False', True, False, 0) for sh in ('Sh', 'my sheet')] + \
                [(r, c) for r in (1, 9) for c in (1, 28)] + [(1, 1, 1), (1, 1, '4'), (1, 1, 4, False)]
-    if key == '_averageifs':
-        return [([a], [b], (lambda x, t=t: x > t)) for a in _lists([0, 1, 5], 3) for b in _lists([0, 1, 5], 3) for t in (0, 3)]
+    if key in ('_averageifs', '_sumifs'):
+        return [([a], [b], (lambda x, t=t: x > t)) for a in _lists([0, 1, 5], 3) for b in _lists([0, 1, 5], 3) for t in (0, 3)] + \
+               [(a, b, (lambda x, t=t: x > t)) for a in _lists([0, 1, 5], 3) for b in _lists([0, 1, 5], 3) for t in (0, 3)]        # flat lists as well
+    if key == '_countifs':
+        return [(a, (lambda x, t=t: x > t), b, (lambda x, t=t: x < t + 4)) for a in _lists([0, 1, 5], 3) for b in _lists([0, 1, 5], 3) for t in (0, 3)] + \
+               [([a], (lambda x, t=t: x > t)) for a in _lists([0, 1, 5, 'a'], 3) for t in (0, 3)]
+    if key == '_sum_if':
+        return [(a, (lambda x, t=t: x > t), b) for a in _lists([0, 1, 5], 3) for b in _lists([0, 1, 5], 3) for t in (0, 3)] + [([a], (lambda x, t=t: x > t)) for a in _lists([0, 1, 5], 3) for t in (0, 3)]
+    if key == '_parse_date_formats':
+        return [(d, f) for d in ('2024-09-15', '2024-09-15 00:00:00', '15/09/2024', '15/09/2024 00:00:00', '09/25/2024 00:00:00', '2024-09-15 10:30:00', 'x', '', '15.09.2024 00:00:00')
+                for f in ('%Y-%m-%d', '%d/%m/%Y', '%m/%d/%Y', '%d.%m.%Y', '%Y-%m-%d %H:%M:%S')]
     if key == '_ifs':
         return [(l,) for l in _lists([0, 1, True, False, 'a', '#N/A'], 4)]
     if key == '_search':
@@ -219,7 +228,13 @@ def run_native_grid(report, key, helper, ns):
             v, o = args
             x, y = outcome(lambda: getattr(ns['KG'].EmptyCell(), o)(*(() if o in ('__str__', '__hash__', '__bool__', '__repr__') else (v,)))), outcome(lambda: getattr(ns['KB'].EmptyCell(), o)(*(() if o in ('__str__', '__hash__', '__bool__', '__repr__') else (v,))))
         else:
-            x, y = outcome(lambda: getattr(G, helper)(*args)), outcome(lambda: getattr(B, helper)(*args))
+            import copy
+            ga, ba = copy.deepcopy(args), copy.deepcopy(args)
+            x, y = outcome(lambda: getattr(G, helper)(*ga)), outcome(lambda: getattr(B, helper)(*ba))
+            post = lambda t: repr([a for a in t if not callable(a)])
+            if same(x, y) and post(ga) != post(ba):
+                # same result, but one copy changed the caller's arguments and the other did not
+                x, y = ('val', 'arguments afterwards: ' + post(ga)), ('val', 'arguments afterwards: ' + post(ba))
         if not same(x, y):
             bad = (args, x, y)
             break
@@ -306,7 +321,19 @@ def run(report, tier, seed):
             report.condition(f'ast.{k}', 'ast', 'skipped', detail=f'same AST but module bindings differ: {bad} -> differential tier')
         else:
             report.condition(f'ast.{k}', 'ast', 'holds', detail='normalised ASTs identical, module-level bindings identical')
-    report.sample(dict(members=len(a), ast_identical=len(set(a) & set(b)) - len(differ), ast_differ=differ))
+    # a helper that calls a differing helper may behave differently as well: close the set under "mentions self.<member>"
+    mentions = {k: {n.attr for n in ast.walk(a[k]) if isinstance(n, ast.Attribute) and isinstance(n.value, ast.Name) and n.value.id == 'self'} |
+                   {n.attr for n in ast.walk(b[k]) if isinstance(n, ast.Attribute) and isinstance(n.value, ast.Name) and n.value.id == 'self'}
+                for k in set(a) & set(b)}
+    directly = list(differ)
+    changed = True
+    while changed:
+        changed = False
+        for k, ms in mentions.items():
+            if k not in differ and ms & set(differ):
+                differ.append(k)
+                changed = True
+    report.sample(dict(members=len(a), ast_identical=len(set(a) & set(b)) - len(directly), ast_differ=directly, callers_of_differing_members=[k for k in differ if k not in directly]))
     # tier 3: differential
     s = Suite('C20', 'diff', PRE, timeout=60 if tier == 'quick' else 240)
     todo = []
@@ -346,7 +373,7 @@ def run(report, tier, seed):
     ns = {'__name__': '_c20_native'}
     exec(compile(PRE, '_c20_pre.py', 'exec'), ns)
     done = set()
-    for key in list(TABLE) + ['_left', '_right', '_mid', '_date', '_flatten_list']:
+    for key in list(TABLE) + ['_left', '_right', '_mid', '_date', '_flatten_list', '_sum_if', '_sumifs', '_countifs', '_parse_date_formats']:
         helper = HELPER_OF.get(key, key)
         if helper in done or not (tier == 'thorough' or helper in differ):
             continue
